@@ -3,10 +3,11 @@ import NimaVerif.Model.NPath
 L5 (value fragment): Python values handed to the construction API and how they are rendered.
 
 Transliteration (bug-compatible) of
-* `expression.coerce_expression`, `primitive.Primitive.__new__/_primitive_cls_from_value`,
+* `expression.coerce_expression/_float_literal`, `primitive.Primitive.__new__/_primitive_cls_from_value`,
   `primitive.*Primitive._render_value`, `float.FloatExpression.rebuild`,
   `NixExpression.add_trivia` (with empty `before`/`after`, which is what constructed objects have),
 * `list.NixList._item_requires_multiline/_auto_multiline/_inline_preview/simple_inline_preview/rebuild`,
+  `list._coerce_list_item/_is_negative_number_literal`, `parenthesis.Parenthesis.rebuild` (empty gaps),
 * `binding.Binding.__post_init__/rebuild` (default `value_gap = " "`),
 * `set.AttributeSet.__post_init__/from_dict/rebuild/__setitem__`, `set._render_bindings`.
 
@@ -14,6 +15,13 @@ The input types ARE the shape part of the property's domain ("dicts at top level
 values; list elements are scalars or lists"): a dict inside a list is not representable (the code
 raises `ValueError` there), floats are given by their Python `repr` text (finite floats only; the
 code raises `ValueError` on `inf`/`nan`).
+
+Refusal. `coerce_expression` raises `ValueError` for an int whose magnitude exceeds
+`_MAX_INTEGER_LITERAL`. Raw values are coerced when they are rendered, and a rebuild renders every
+part of the object (each list item in `render_item`, each binding value in `Binding.rebuild`, each
+binding of a set), so `rebuild()` raises exactly when the object holds such an int: `exprRefused`.
+The text functions below describe the rebuild of an object that holds none; `renderCtx` puts the
+two together (`Except`-valued).
 -/
 namespace Nima
 
@@ -22,7 +30,7 @@ inductive Elem where
   | none
   | bool (b : Bool)
   | int (i : Int)
-  | float (repr : Text)      -- `repr(value)` of a finite Python float
+  | float (repr : Text)      -- `repr(value)` of a finite Python float (the code spells it `floatLiteral repr`)
   | str (s : Text)
   | list (xs : List Elem)
 deriving Repr, Inhabited
@@ -61,6 +69,18 @@ def stringEscapesInterpolation : Bool := false
     before `int`: `True` is a boolean, not the integer 1). The constructors of `Elem` are these classes. -/
 def coerceOrder : List String := ["NixExpression", "None", "bool", "int", "float", "list", "str"]
 def primitiveOrder : List String := ["bool", "None", "int", "str"]
+/-- `expression._float_literal`: `if "<1>" not in text:` / `text.partition("<2>")` / the text put
+    between the mantissa and the exponent mark. -/
+def floatLiteralRule : Char × Char × Text := ('.', 'e', ['.', '0'])
+/-- `expression._MAX_INTEGER_LITERAL`: `coerce_expression` raises `ValueError` for an int with
+    `abs(value) >` this bound. -/
+def coerceIntMax : Nat := 9223372036854775807
+/-- `list._is_negative_number_literal`: the class tests and what each returns. -/
+def negLiteralTests : List (String × String) :=
+  [("IntegerPrimitive", "value<0"), ("FloatExpression", "value.startswith:-")]
+/-- Which functions of `NixList` coerce an item with `_coerce_list_item` (negative number literals get
+    parentheses) and which with plain `coerce_expression` (the multiline probe). -/
+def listItemCoercers : List String × List String := (["_inline_preview", "render_item"], ["_auto_multiline"])
 
 /-! ## Construction -/
 
@@ -112,7 +132,40 @@ def hasInterp : Text → Bool
   | '$' :: '{' :: _ => true
   | _ :: cs => hasInterp cs
 
+/-! ## Refusal -/
+
+/-- `coerce_expression(value)` for an int: `if abs(value) > _MAX_INTEGER_LITERAL: raise ValueError` -/
+def intRefused (i : Int) : Bool := i.natAbs > coerceIntMax
+
+mutual
+/-- some `coerce_expression` call of `coerce_expression(e).rebuild(…)` raises -/
+def elemRefused : Elem → Bool
+  | .int i => intRefused i
+  | .list xs => elemsRefused xs
+  | _ => false
+def elemsRefused : List Elem → Bool
+  | [] => false
+  | x :: xs => elemRefused x || elemsRefused xs
+end
+
+mutual
+/-- some `coerce_expression` call of `value.rebuild(…)` raises -/
+def exprRefused : Expr → Bool
+  | .raw e => elemRefused e
+  | .aset bs _ => bsRefused bs
+def bsRefused : List (Text × Expr) → Bool
+  | [] => false
+  | (_, v) :: rest => exprRefused v || bsRefused rest
+end
+
 /-! ## Rendering -/
+
+/-- `expression._float_literal(value)` given `repr(value)`: a repr without `.` (it then has an
+    exponent: `1e+16`) gets `.0` in front of the exponent mark — `text.partition("e")` is (before the
+    first `e`, `e`, after it), or (text, "", "") when there is none. -/
+def floatLiteral (r : Text) : Text :=
+  if r.contains floatLiteralRule.1 then r
+  else r.takeWhile (· != floatLiteralRule.2.1) ++ (floatLiteralRule.2.2 ++ r.dropWhile (· != floatLiteralRule.2.1))
 
 /-- `f"{self.value}"` for a Python int -/
 def pyIntStr (i : Int) : Text :=
@@ -150,13 +203,25 @@ def listText (multiline : Bool) (items : List Text) (indent : Nat) (inline : Boo
     let indentor := if inline then [] else spaces indent
     indentor ++ ('[' :: ' ' :: itemsStr) ++ [' ', ']']
 
+/-- `list._is_negative_number_literal(coerce_expression(item))`: an `IntegerPrimitive` with
+    `value < 0`, a `FloatExpression` whose `value` (the literal) starts with `-`. -/
+def isNegLiteral : Elem → Bool
+  | .int i => i < 0
+  | .float r => (floatLiteral r).head? == some '-'
+  | _ => false
+
+/-- `Parenthesis(value=bare).rebuild(indent, inline)` for a constructed parenthesis (empty gaps, no
+    trivia), given `inner = bare.rebuild(indent, inline=True)`: `add_trivia(f"({inner})", …)`. -/
+def parenText (inner : Text) (indent : Nat) (inline : Bool) : Text :=
+  addTrivia ('(' :: (inner ++ [')'])) indent inline
+
 mutual
 /-- `coerce_expression(item).rebuild(indent, inline)` for a scalar or list. -/
 def renderElem : Elem → Nat → Bool → Text
   | .none, i, inl => addTrivia litNull i inl
   | .bool b, i, inl => addTrivia (if b then litTrue else litFalse) i inl
   | .int n, i, inl => addTrivia (pyIntStr n) i inl
-  | .float r, i, inl => addTrivia r i inl
+  | .float r, i, inl => addTrivia (floatLiteral r) i inl
   | .str s, i, inl =>
     addTrivia (stringQuotes.1 ++ escapeNix stringEscapesInterpolation s ++ stringQuotes.2) i inl
   | .list xs, i, inl =>
@@ -168,12 +233,16 @@ def renderElem : Elem → Nat → Bool → Text
     else
       -- `render_item`: `expr.rebuild(indent=indented, inline=not multiline)`
       listText multiline (renderItems xs indented (!multiline)) i inl
-/-- `[render_item(item) for item in self.value]` -/
+/-- `[render_item(item) for item in self.value]` with `render_item(item) =
+    _coerce_list_item(item).rebuild(indent, inline)`: a negative number literal is wrapped in a
+    `Parenthesis`, everything else is rendered as it is. -/
 def renderItems : List Elem → Nat → Bool → List Text
   | [], _, _ => []
-  | x :: xs, i, inl => renderElem x i inl :: renderItems xs i inl
+  | x :: xs, i, inl =>
+    (if isNegLiteral x then parenText (renderElem x i true) i inl else renderElem x i inl)
+      :: renderItems xs i inl
 /-- `any(self._item_requires_multiline(coerce_expression(item)) for item in self.value)`:
-    the item is rendered at `indent=0, inline=True` and searched for a newline. -/
+    the item (not parenthesised here) is rendered at `indent=0, inline=True` and searched for a newline. -/
 def anyItemNl : List Elem → Bool
   | [] => false
   | x :: xs => hasNl (renderElem x 0 true) || anyItemNl xs
@@ -258,13 +327,22 @@ inductive Ctx where
   | setItemOn (d : List (Text × PyVal)) (ml : Bool) (k : Text) (v : PyVal)
 deriving Repr, Inhabited
 
-/-- `.rebuild()` is `rebuild(indent=0, inline=False)`. -/
-def renderCtx : Ctx → Text
-  | .fromDict d => renderExpr (fromDict d) 0 false
-  | .values d => renderExpr (valuesCtor d) 0 false
+/-- What the context builds: the object whose `rebuild` is called (for a `Binding`, its value). -/
+def ctxExpr : Ctx → Expr
+  | .fromDict d => fromDict d
+  | .values d => valuesCtor d
+  | .binding _ v => bindValue v
+  | .list xs => .raw (.list xs)
+  | .setItem d k v => setItem (fromDict d) k v
+  | .setItemOn d ml k v => setItem (.aset (bindAll d) ml) k v
+
+/-- The text of `.rebuild()` (`rebuild(indent=0, inline=False)`) when no value is refused. -/
+def renderCtxText : Ctx → Text
   | .binding k v => renderBinding k (bindValue v) 0 false
-  | .list xs => renderElem (.list xs) 0 false
-  | .setItem d k v => renderExpr (setItem (fromDict d) k v) 0 false
-  | .setItemOn d ml k v => renderExpr (setItem (.aset (bindAll d) ml) k v) 0 false
+  | c => renderExpr (ctxExpr c) 0 false
+
+/-- `.rebuild()`: `ValueError` when the object holds an int `coerce_expression` refuses, else the text. -/
+def renderCtx (c : Ctx) : Except Err Text :=
+  if exprRefused (ctxExpr c) then .error .value else .ok (renderCtxText c)
 
 end Nima
